@@ -422,7 +422,7 @@ func spawn(c *verdict.Ctx, dir, stage, arg string, race bool, timeout time.Durat
 			res.stderr = full
 		}
 	}
-	if stage == "n3" || stage == "n3mem" {
+	if stage == "n3" || stage == "n3mem" || stage == "n3init" {
 		if b, err := os.ReadFile(errPath); err == nil {
 			for k, v := range recoveredPanics(string(b)) {
 				res.rec.Counts["n3.panic_recovered_by_connection@"+k] += int64(v)
@@ -519,6 +519,8 @@ func childMain(c *verdict.Ctx, stage string) int {
 		stageN2(c, r)
 	case "n3":
 		stageN3(c, r, arg)
+	case "n3init":
+		stageN3Init(c, r, arg)
 	case "n3mem":
 		stageN3Mem(c, r, arg)
 	default:
@@ -681,13 +683,15 @@ func replay(c *verdict.Ctx) int {
 		dir := verdict.TmpDir("c17rp-")
 		defer os.RemoveAll(dir)
 		stage, arg := "n3", fmt.Sprint(batch)
-		if f.Witness.Stream == "n3mem" || batch < 0 {
+		if f.Witness.Stream == "n3init" {
+			stage = "n3init"
+		} else if f.Witness.Stream == "n3mem" || batch < 0 {
 			stage, arg = "n3mem", ""
 		}
 		res := spawn(c, dir, stage, arg, false, 10*time.Minute)
 		res.rec.apply(c, "")
-		if res.crashed {
-			ins, _, _ := lastInputs(filepath.Join(dir, "n3-"+sanitizeName(arg)+".inputs"), 4)
+		if res.crashed && res.exit != 91 {
+			ins, _, _ := lastInputs(filepath.Join(dir, stage+"-"+sanitizeName(arg)+".inputs"), 4)
 			reportCrash(c, stage, res, map[string]interface{}{"stream": stage, "last_logged_inputs_newest_last": ins})
 		}
 	}
